@@ -123,9 +123,35 @@ func tick(s *vlib.Sys, crontab string) { s.Op.ScheduleManager.Ch() <- crontab }
 // unchanged tree has benign races); that must end the bubble's subtest only,
 // not the case runner. Verdicts never come from go test's PASS/FAIL.
 func inBubble(c *vlib.Case, body func(t *testing.T)) {
-	c.T.Run("bubble", func(t *testing.T) {
-		synctest.Test(t, body)
-	})
+	done := make(chan struct{})
+	go func() {
+		defer close(done)
+		c.T.Run("bubble", func(t *testing.T) {
+			synctest.Test(t, body)
+		})
+	}()
+	// Freeze detector (real time, outside the bubble; it never decides a property): a goroutine blocked on
+	// a sync.Mutex whose holder waits for a bubble timer (FactoryStore.Start holds its mutex across the
+	// 100 ms cache-sync poll) stops virtual time for good. The bubble is abandoned and the case is
+	// inconclusive.
+	tk := time.NewTicker(5 * time.Second)
+	defer tk.Stop()
+	start := time.Now()
+	last, lastAt := vlib.Progress.Load(), time.Now()
+	for {
+		select {
+		case <-done:
+			return
+		case <-tk.C:
+			if p := vlib.Progress.Load(); p != last {
+				last, lastAt = p, time.Now()
+			}
+			if time.Since(start) > 60*time.Second && time.Since(lastAt) > 45*time.Second {
+				c.Frozen = "synctest bubble frozen (no instrumentation point hit for 45 s of real time; a goroutine is blocked on a mutex whose holder waits for a virtual timer) - harness limitation, case abandoned"
+				return
+			}
+		}
+	}
 }
 
 // failDirective renders a scripted failure of the given kind.
